@@ -32,6 +32,7 @@ func (x *vc) functypeContract(t types.Type) *funcContract {
 func (x *vc) call(fr *frame, st *state, in ssa.CallInstruction, pos string) Val {
 	cc := in.Common()
 	x.curCall = in
+	x.curTail = fr.top && isTailCall(in)
 	var resT types.Type
 	if v := in.Value(); v != nil {
 		resT = v.Type()
@@ -79,6 +80,14 @@ func (x *vc) call(fr *frame, st *state, in ssa.CallInstruction, pos string) Val 
 				x.check(st, "rt:Elem", "", or(eq(kd, "17"), eq(kd, "18"), eq(kd, "21"), eq(kd, "22"), eq(kd, "23")), pos, "reflect.Type.Elem: the type must be an array, channel, map, pointer or slice type")
 			case "Key":
 				x.check(st, "rt:Key", "", eq(kd, "21"), pos, "reflect.Type.Key: the type must be a map type")
+			case "Implements":
+				// t.Implements(u): the method-set relation between the two described types; the same relation decides type
+				// assertions to the interface type u (implements_I(tag) is rt_implements(tag, id of I))
+				if len(args) == 1 && args[0].T != "" {
+					x.check(st, "rt:Implements", "", and(not(eq(args[0].T, "(mkiface 0 0)")), eq(app("kind_of_type", app("rtype_id", args[0].T)), "20")), pos, "reflect.Type.Implements: the argument must be a non-nil interface type")
+					r := x.define("rtimpl", sBool, app("rt_implements", id, app("rtype_id", args[0].T)))
+					return Val{T: r, Typ: resT}
+				}
 			case "In", "Out", "NumIn", "NumOut", "IsVariadic":
 				x.check(st, "rt:"+cc.Method.Name(), "", eq(kd, "19"), pos, "reflect.Type."+cc.Method.Name()+": the type must be a function type (index range: not modelled)")
 			}
@@ -294,7 +303,13 @@ func (x *vc) callStatic(fr *frame, st *state, callee *ssa.Function, binds []Val,
 	if fc == nil {
 		sub.fc = x.p.cons.get(key)
 	}
+	// inside an inlined call in tail position the objects handed to it are no longer private to the caller
+	savedTailInline := x.tailInline
+	if x.curTail {
+		x.tailInline = true
+	}
 	res := x.execBody(sub, st)
+	x.tailInline = savedTailInline
 	x.stack = x.stack[:len(x.stack)-1]
 	if res.noRet {
 		st.guard = "false"
@@ -528,15 +543,15 @@ func (x *vc) applyContract(fr *frame, st *state, fc *funcContract, callee *ssa.F
 			}
 			switch x.srt.sortOf(c.Typ) {
 			case sRV:
-				x.assume(st.guard, not(app("localobj", app("ival", app("rv_iface", c.T)))))
+				x.assume(st.guard, not(localAny(app("ival", app("rv_iface", c.T)))))
 			case sIface:
-				x.assume(st.guard, not(app("localobj", app("ival", c.T))))
+				x.assume(st.guard, not(localAny(app("ival", c.T))))
 			case sSlice:
-				x.assume(st.guard, not(app("localobj", app("sl_arr", c.T))))
+				x.assume(st.guard, not(localAny(app("sl_arr", c.T))))
 			case sInt:
 				switch c.Typ.Underlying().(type) {
 				case *types.Pointer, *types.Map:
-					x.assume(st.guard, not(app("localobj", c.T)))
+					x.assume(st.guard, not(localAny(c.T)))
 				}
 			}
 		}
